@@ -782,7 +782,7 @@ def main():
 
 
 def save_replay(prop, ob, r, data, vals, outtxt):
-    d = os.path.join(VERIF, "evidence", "replays")
+    d = os.path.join(os.environ.get("VERIF_EVIDENCE_DIR") or os.path.join(VERIF, "evidence"), "replays")
     os.makedirs(d, exist_ok=True)
     p = os.path.join(d, "%s_%s.json" % (prop, ob["name"]))
     json.dump({
@@ -795,7 +795,8 @@ def save_replay(prop, ob, r, data, vals, outtxt):
 
 
 def write_evidence(prop, tier, seed, obs, results, wall, n_viol, extra):
-    os.makedirs(os.path.join(VERIF, "evidence"), exist_ok=True)
+    evdir = os.environ.get("VERIF_EVIDENCE_DIR") or os.path.join(VERIF, "evidence")
+    os.makedirs(evdir, exist_ok=True)
     by = {r["name"]: r for r in results}
     samples = []
     discharged = 0
@@ -835,7 +836,7 @@ def write_evidence(prop, tier, seed, obs, results, wall, n_viol, extra):
         "violations": n_viol,
     }
     ev["coverage"].update(extra or {})
-    json.dump(ev, open(os.path.join(VERIF, "evidence", prop + ".json"), "w"), indent=1)
+    json.dump(ev, open(os.path.join(evdir, prop + ".json"), "w"), indent=1)
 
 
 def obligations_assumptions(obs):
